@@ -17,7 +17,7 @@ func ruleFidelity(c *core.Ctx, kws ...string) {
 	fn := "(*pkg/schemas.Type).UnmarshalJSON"
 	kind := map[string]string{"pattern": "str", "format": "str", "title": "str", "description": "str", "$ref": "str", "default": "str",
 		"minimum": "num", "maximum": "num", "multipleOf": "num", "exclusiveMinimum": "num", "exclusiveMaximum": "num",
-		"minLength": "int", "maxLength": "int", "minItems": "int", "maxItems": "int"}
+		"minLength": "int", "maxLength": "int", "minItems": "int", "maxItems": "int", "enum": "arr"}
 	n := 0
 	for _, kw := range kws {
 		var vals []func(g *gen.G) absint.Value
@@ -39,6 +39,16 @@ func ruleFidelity(c *core.Ctx, kws ...string) {
 				vals = append(vals, func(g *gen.G) absint.Value { return absint.JSONNum{V: v} })
 				names = append(names, fmt.Sprint(v))
 			}
+		case "arr":
+			// values of different JSON types that print alike, a repeated value, and null: each is a listed value of its own
+			vals = append(vals, func(g *gen.G) absint.Value {
+				return absint.JSONArr{Vals: []absint.Value{absint.JSONNum{V: 1}, absint.Lit("1"), true, absint.Lit("true"), nil, absint.Lit("<nil>")}}
+			})
+			names = append(names, `[1, "1", true, "true", null, "<nil>"]`)
+			vals = append(vals, func(g *gen.G) absint.Value {
+				return absint.JSONArr{Vals: []absint.Value{g.Raw("enum[0]", false), g.Raw("enum[1]", false)}}
+			})
+			names = append(names, `["X", "Y"]`)
 		default:
 			c.Undecided("A-FIDELITY", fn, "keyword "+kw, "", "no value kind registered for this keyword")
 			continue
